@@ -71,14 +71,20 @@ def compile_harness_private(src="run_codec.cc", config="mpz"):
     raise common.BuildError("harness %s failed to compile:\n%s" % (src, last[-6000:]))
 
 
-def coq_witnesses(chk):
+def coq_witnesses(chk, full=False):
     """Evaluate the search results the DECIDED theorems branch on."""
     src = "Require Import PPLV.Codec.Status NArith List Bool.\nOpen Scope N_scope.\n"
     names = ["ph", "grid", "bds", "og", "box"]
     for n in names:
-        src += 'Goal True. idtac "@@@ any %s". exact I. Qed.\nEval vm_compute in (cex_any %s_class).\n' % (n, n)
+        # the scrutinee of the DECIDED theorems is cex_any (all targets x all states); when there is no counterexample
+        # the full search has no early exit (512 x 512 loads for Polyhedron / Grid), so the quick tier searches the
+        # targets {no flag, every single flag, all flags} only (a stale flag shows with a single-flag target) and says so
+        search = ("(cex_any %s_class)" % n) if full else (
+            "(find (fun p => negb (rt_ok %s_class (fst p) (snd p))) (list_prod (0 :: N.ones (N.of_nat (sc_nbits %s_class)) :: "
+            "map (fun i => N.shiftl 1 (N.of_nat i)) (seq 0 (sc_nbits %s_class))) (states (sc_nbits %s_class))))" % (n, n, n, n))
+        src += 'Goal True. idtac "@@@ any %s". exact I. Qed.\nEval vm_compute in %s.\n' % (n, search)
         src += ('Goal True. idtac "@@@ res %s". exact I. Qed.\n'
-                'Eval vm_compute in (match cex_any %s_class with Some (t, s) => status_result %s_class t s | None => None end).\n' % (n, n, n))
+                'Eval vm_compute in (match %s with Some (t, s) => status_result %s_class t s | None => None end).\n' % (n, search, n))
     # every failing (target, state) pair of the exhaustive search must be explained by the root cause of a known
     # finding: a flag that the loader only ever SETS (no else-branch in the regenerated reader facts) is on in
     # the target and off in the dumped state.  Pairs not explained that way are listed (first 5).  Targets searched: no flag, every single flag, all flags
@@ -297,15 +303,17 @@ def run(chk):
 
     # ---- facts + proofs -------------------------------------------------------------------------
     summary = translate_codec.generate()
-    chk.extra["facts"] = {k: v for k, v in summary.items() if k in ("ph", "grid", "bds", "og", "box")}
+    chk.extra["facts"] = {k: v for k, v in summary.items() if k in ("ph", "grid", "bds", "og", "box", "float_print_sign_separate")}
     proved = chk.prove(CODEC_FILES, extra_obligations=len(FACT_OBLIGATIONS))
     wit = None
     if proved:
-        wit, raw = coq_witnesses(chk)
+        wit, raw = coq_witnesses(chk, full=not chk.quick)
         if wit is None:
             chk.broken.append(("coq-witness-eval", raw[-1500:]))
         else:
             chk.extra["decided_branches"] = wit
+            chk.extra["decided_branches_search"] = ("full cex_any" if not chk.quick else
+                                                    "targets restricted to no flag / single flags / all flags (quick tier)")
             chk.log("decided statements: " + ", ".join("%s=%s" % kv for kv in sorted(wit.items())))
 
     # ---- model + harness ------------------------------------------------------------------------
@@ -362,10 +370,17 @@ def _run(chk, exe, judge, wit, work):
     if chk.replay:
         rp = json.load(open(chk.replay))
         plan = [(int(rp["harness_seed"]), int(rp["index"]) + 1, int(rp.get("maxmut", 40)), int(rp["index"]))]
-    elif chk.quick:
-        plan = [(chk.seed, 630, 40, None)]
     else:
-        plan = [(chk.seed * 100 + k, 3150, 60, None) for k in range(10)]
+        # corpus first: minimised past failures, each re-run as one object of its harness seed
+        plan = []
+        import glob as _glob
+        for f in sorted(_glob.glob(os.path.join(common.VERIF, "corpus", "C15", "replay-*.json"))):
+            rp = json.load(open(f))
+            plan.append((int(rp["harness_seed"]), int(rp["index"]) + 1, int(rp.get("maxmut", 2)), int(rp["index"])))
+        if chk.quick:
+            plan.append((chk.seed, 630, 40, None))
+        else:
+            plan += [(chk.seed * 100 + k, 3150, 60, None) for k in range(10)]
 
     hist = defaultdict(Counter)
     stats = Counter()
